@@ -417,6 +417,16 @@ func rootAlloc(addr ssa.Value) ssa.Value {
 			addr = x.X
 		case *ssa.IndexAddr:
 			addr = x.X
+		case *ssa.UnOp:
+			// a parameter that lives in a cell because a closure captures it
+			if cell, ok := x.X.(*ssa.Alloc); ok && x.Op == token.MUL {
+				if v := soleStoredValue(cell); v != nil {
+					if _, isParam := v.(*ssa.Parameter); isParam {
+						return v
+					}
+				}
+			}
+			return addr
 		default:
 			return addr
 		}
